@@ -7,11 +7,18 @@ cd "$(dirname "$0")/.."
 WITH_TESTS=0
 if [ "${1:-}" = "--with-tests" ]; then WITH_TESTS=1; shift; fi
 if [ $# -eq 0 ]; then set -- mutants/*.patch; fi
-[ -z "$(git -C /repo status --porcelain --untracked-files=no)" ] || { echo "repo dirty"; exit 2; }
-trap 'git -C /repo checkout -- . 2>/dev/null' EXIT
+[ -n "${ALT:-}" ] || [ -z "$(git -C /repo status --porcelain --untracked-files=no)" ] || { echo "repo dirty"; exit 2; }
+[ -n "${ALT:-}" ] || trap 'git -C /repo checkout -- . 2>/dev/null' EXIT
 pass=0; fail=0
 for p in "$@"; do
     name=$(basename "$p" .patch); prop=${name%%-*}
+    if [ -n "${ALT:-}" ]; then
+        # isolated scratch copy, /repo untouched (tools/alt_eval.sh)
+        out=$(tools/alt_eval.sh "$prop" "$(realpath "$p")" quick 2>&1); rc=$?
+        line=$(echo "$out" | grep -m1 '^VIOLATION' || true)
+        if [ $rc -eq 1 ] && [ -n "$line" ]; then echo "MUTANT $name: caught"; pass=$((pass+1)); else echo "MUTANT $name: MISSED rc=$rc"; fail=$((fail+1)); fi
+        continue
+    fi
     git -C /repo apply "$(realpath "$p")" || { echo "MUTANT $name: patch does not apply"; fail=$((fail+1)); continue; }
     tests="n/a"
     if [ $WITH_TESTS = 1 ]; then
